@@ -577,7 +577,8 @@ Verdict propC09(Choices &c, Ctx &ctx) {
       ctx.describe(h.str());
       if (x.utt == Dec::STARTED) ctx.label("violation:reinit-mid-utterance");
       int rc = featOnly ? decoder_reinit_feat(d, NULL) : decoder_reinit(d, NULL);
-      if (rc < 0) res = fail("reinit-failed", Msg() << "reinit with the unchanged configuration returned " << rc, h.str());
+      // (the feature computation cannot be replaced under an utterance in progress: refusing then is fine)
+      if (rc < 0 && !(featOnly && x.utt == Dec::STARTED)) res = fail("reinit-failed", Msg() << "reinit with the unchanged configuration returned " << rc, h.str());
       if (!featOnly) x.hasGrammar = false; // the grammar came from the API, not the configuration: it is gone
       resync(x);
       if (x.utt == Dec::ENDED && !featOnly) x.utt = Dec::IDLE;
@@ -705,15 +706,19 @@ Verdict propC09(Choices &c, Ctx &ctx) {
       res = fail("decoder-unusable-after-history", "decoder_set_align_text refused the reference text after the history", h.str());
       break;
     }
+    // the running cepstral mean deliberately carries over from earlier audio (one loud frame given as a
+    // "full utterance" moves it a long way): put it back to the documented initial value first
+    if (decoder_set_cmn(x.d, "40,3,-1") != 0) {
+      res = fail("decoder-unusable-after-history", "decoder_set_cmn refused the documented initial value after the history", h.str());
+      break;
+    }
     std::vector<int16_t> b(speech.begin(), speech.end());
     int r1 = decoder_start_utt(x.d);
     int r2 = decoder_process_int16(x.d, b.data(), 8000, 0, 0);
     int r3 = decoder_process_int16(x.d, b.data() + 8000, b.size() - 8000, 0, 0);
     int r4 = decoder_end_utt(x.d);
     const char *hy = decoder_hyp(x.d, NULL);
-    // a cepstral mean set by the caller legitimately changes what the audio looks like: then only the
-    // calls themselves are checked and the result may be empty
-    bool hypOk = hy ? std::string(hy) == "go forward ten meters" : cmnTouched;
+    bool hypOk = hy && std::string(hy) == "go forward ten meters";
     if (r1 != 0 || r2 < 0 || r3 < 0 || r4 != 0 || !hypOk)
       res = fail("decoder-unusable-after-history", Msg() << "follow-up utterance: start=" << r1 << " process=" << r2 << "," << r3 << " end=" << r4 << " hyp=" << (hy ? hy : "NULL"), h.str());
   }
